@@ -13,7 +13,7 @@
    repaired (fix: ebf9945, f18097d); the former witnesses are kept as regression Examples and corpus cases. *)
 From Coq Require Import ZArith List Bool.
 Import ListNotations.
-From Urwid Require Import PyBase geo_padfill_gen Geometry GeometryFacts GeometryProofs GeometryMoveProofs.
+From Urwid Require Import PyBase geo_padfill_gen Geometry GeometryFacts GeometryProofs GeometryMoveProofs GeometryMoveFull.
 Open Scope Z_scope.
 
 (* ------------------------------------------------------------------------------------------ *)
@@ -148,34 +148,32 @@ Proof.
 Qed.
 Print Assumptions child_view_is_subwidget.
 
-(* ... and afterwards the reported cursor is on the requested row.  [m_asked m <> None]: the request went
-   down to a leaf (every widget on the way implements move_cursor_to_coords).  Structural induction over
-   the tree.  PARTIAL: proved for moves that leave the focus of every Columns on the way where it was
-   ([cols_same]: same tree shape, same Columns focus positions; Pile focus and leaf cursors may change).
-   What is missing for the full statement: Columns.column_widths depends on focus_position (columns right
-   of the focus are dropped first), so after a focus change the sizes handed to the children are the same
-   only because everything fits; that needs a proof that column_widths is independent of the focus when no
-   column is dropped, and congruence of every container's size helpers.  The remaining case (a Columns
-   whose focus moves) is decided by the correspondence and the oracle. *)
-Theorem cursor_on_requested_row_partial :
-  forall w s col row,
-    fits w s = true -> i_hasmove (info w) = true ->
-    let m := move_cursor w s col row in
-    m_ok m = true -> m_asked m <> None -> cols_same w (m_w m) = true ->
-    fits (m_w m) s = true /\ exists x, cursor_coords (m_w m) s = CSome x row.
-Proof.
-  intros w s col row Hf Hm m Hok Hasked Hsame.
-  destruct (move_ok_all w s col row Hf Hm Hok Hsame) as [_ [H1 H2]].
-  split; [exact H1|]. destruct (H2 Hasked) as [_ [_ H3]]. exact H3.
-Qed.
-Print Assumptions cursor_on_requested_row_partial.
-
-Definition cursor_on_requested_row_full : Prop :=
+(* ... and afterwards the reported cursor is on the requested row.  [m_asked m <> None]: the request went down
+   to a leaf (every widget on the way implements move_cursor_to_coords).  Structural induction over the tree,
+   every class, including moves that change the focus of a Pile or of a Columns; the tree still fits afterwards. *)
+Theorem cursor_on_requested_row :
   forall w s col row,
     fits w s = true -> i_hasmove (info w) = true ->
     let m := move_cursor w s col row in
     m_ok m = true -> m_asked m <> None ->
-    exists x, cursor_coords (m_w m) s = CSome x row.
+    fits (m_w m) s = true /\ exists x, cursor_coords (m_w m) s = CSome x row.
+Proof.
+  intros w s col row Hf Hm m Hok Hasked.
+  destruct (move_okf_all w s col row Hf Hm Hok) as [_ [H1 H2]].
+  split; [exact H1|]. destruct (H2 Hasked) as [_ [_ H3]]. exact H3.
+Qed.
+Print Assumptions cursor_on_requested_row.
+
+(* what makes this work for a Columns whose focus moves: when the static needs of the columns fit (part of
+   [fits]), Columns.column_widths - which drops the columns right of the focus first - does not depend on
+   focus_position at all *)
+Theorem column_widths_focus_independent :
+  forall opts fp fp' dc mw maxcol,
+    0 <= dc -> Forall (fun o => 0 <= static_w o mw) opts ->
+    zsum (map (fun o => static_w o mw + dc) opts) <= maxcol + dc ->
+    column_widths opts fp dc mw maxcol = column_widths opts fp' dc mw maxcol.
+Proof. exact column_widths_fp. Qed.
+Print Assumptions column_widths_focus_independent.
 
 (* ------------------------------------------------------------------------------------------ *)
 (* about the translated code (regenerated from padding.py / filler.py on every run): unless the  *)
@@ -225,7 +223,7 @@ Proof. vm_compute. auto. Qed.
 
 Example example_move_same_columns_focus :
   let m := move_cursor example_tree (9, None) 4 3 in
-  m_ok m = true /\ m_asked m = Some (2, 1, 0, (3, None)) /\ cols_same example_tree (m_w m) = true /\
+  m_ok m = true /\ m_asked m = Some (2, 1, 0, (3, None)) /\
   i_hasmove (info example_tree) = true /\ cursor_coords (m_w m) (9, None) = CSome 4 3.
 Proof. vm_compute. auto. Qed.
 
